@@ -70,6 +70,19 @@ def sign(a):
     return 'unknown'
 
 
+def _witness_negative(a):
+    """`a` = extent - 1 - index (an Aff over contract symbols) could not be signed.  When every symbol occurs with a positive coefficient and the
+    value at the smallest admissible sizes (1 for an extent, 0 for slack) is negative, that size assignment is a valid input for which the
+    index lies outside: -> (extent value text, assignment text); None otherwise."""
+    if not a.t or any(v <= 0 for v in a.t.values()):
+        return None
+    mins = {k: (0 if 'slack' in str(k) else 1) for k in a.t}
+    val = a.c + sum(v * mins[k] for k, v in a.t.items())
+    if val < 0:
+        return ('%d' % -val, ', '.join('%s = %d' % (k, mins[k]) for k in sorted(a.t, key=str)))
+    return None
+
+
 class Rng:
     __slots__ = ('lo', 'hi')
 
@@ -616,7 +629,12 @@ class Bounds:
                 if s_hi == 'neg':
                     ok, msg = False, 'index reaches %r but the extent is %r' % (v.hi, E)
                 elif s_hi == 'unknown':
-                    self.unresolved.append((e, 'cannot show %r <= %r - 1' % (v.hi, E)))
+                    w = _witness_negative(E - 1 - v.hi)
+                    if w is not None:
+                        # the extent is a contract symbol: every value >= 1 (>= 0 for slack) is a valid input, and for this one the index is outside
+                        ok, msg = False, 'index reaches %r but for %s (a valid input) the extent %r is too small by %s' % (v.hi, w[1], E, w[0])
+                    else:
+                        self.unresolved.append((e, 'cannot show %r <= %r - 1' % (v.hi, E)))
                 self.sites.append(Site(e, 'int', ok, msg, ast.unparse(e)))
             elif v is None:
                 self.unresolved.append((e, 'index %s not an affine integer' % ast.unparse(items[k])[:30]))
